@@ -49,7 +49,7 @@ if "C16" in claimed:
 else: PENDING["C16"]=1
 if "C09" in claimed:
     chk("C09", "histsim", "exploration",
-        "Seeded call histories on long-lived calculators, generators, plans and evaluators (batched vs single density matrices, block-size changes incl. grids above the block cap, repeats, spin/molecule/grid/model interleavings, several live objects of one kind, forces between energy calls, aliasing, workspace reuse and buffers overwritten after return, look-alike inputs, allocator-content perturbation) are executed on the real code and compared call by call with the answers of fresh objects; calls are interrupted at seeded points (injected MemoryError / KeyboardInterrupt at the k-th Python line inside the package) and every later call on the same objects is still compared with fresh objects; the shallow fault points of the call that follows a configuration switch are enumerated (set-up phase in quick, whole call in thorough); all objects are dropped and collected between items of data-set loops; the calls of every fourth calculator history are re-made in a fresh interpreter in reverse order (module-level state); caller-owned inputs and option objects are digested before and after each call; optional settings (density threshold, angular cut-off, top exponent) vary per calculator, two differently configured calculators of one model share one grids object, one request is swept over every memory budget, and plans are called on sub-ranges of their samples and compared with the slice of the whole evaluation. Kohn-Sham-object histories also swap the functional (set_mlxc, with or without initializer objects), run the package's ElectronAnalyzer.from_calc on the live object, and ask all four gradient drivers (restricted/unrestricted, with/without grid response) for their matrices after energy calls of either spin treatment; weave histories revisit one (spin treatment, molecule, grids) coordinate after the others moved; displaced, indefinite density matrices (derivative checks) are swept over every memory budget; analyzer objects are asked for several functionals, grids and quantities in sequence.",
+        "Seeded call histories on long-lived calculators, generators, plans and evaluators (batched vs single density matrices, block-size changes incl. grids above the block cap, repeats, spin/molecule/grid/model interleavings, several live objects of one kind, forces between energy calls, aliasing, workspace reuse and buffers overwritten after return, look-alike inputs, allocator-content perturbation) are executed on the real code and compared call by call with the answers of fresh objects; calls are interrupted at seeded points (injected MemoryError / KeyboardInterrupt at the k-th Python line inside the package) and every later call on the same objects is still compared with fresh objects; the shallow fault points of the call that follows a configuration switch are enumerated (set-up phase in quick, whole call in thorough); all objects are dropped and collected between items of data-set loops; the calls of every fourth calculator history are re-made in a fresh interpreter in reverse order (module-level state); caller-owned inputs and option objects are digested before and after each call; optional settings (density threshold, angular cut-off, top exponent) vary per calculator, two differently configured calculators of one model share one grids object, one request is swept over every memory budget, and plans are called on sub-ranges of their samples and compared with the slice of the whole evaluation. Kohn-Sham-object histories also swap the functional (set_mlxc, with or without initializer objects), run the package's ElectronAnalyzer.from_calc on the live object (also interrupted inside its energy evaluation on the temporary grids), and ask all four gradient drivers (restricted/unrestricted, with/without grid response) for their matrices after energy calls of either spin treatment; weave histories revisit one (spin treatment, molecule, grids) coordinate after the others moved; displaced, indefinite density matrices (derivative checks) are swept over every memory budget; analyzer objects are asked for several functionals, grids and quantities in sequence.",
         "Models are synthetic; molecules <= 3 atoms (plus one-atom 86 800-point grids); allocator perturbation via glibc M_PERTURB; an interrupted call is un-acknowledged (nothing is demanded of it); tolerance 1e-10 relative separates summation-order noise (1e-16) from stale-cache effects (>=1e-9).",
         "deterministic simulation: seeded operation histories with legal-perturbation injection (batching, blocking, aliasing, buffer reuse, allocator content) and failure injection at seeded points inside calls, against a fresh-object reference model",
         "DESIGN.md §3.2")
@@ -78,6 +78,6 @@ m = {
  ],
  "checks": checks,
  "not_applicable": sorted(na, key=lambda e: e["property_id"]),
- "notes": "fix: commits in /repo: 82c6c38 (OmegaMap code, C14), 047054a (sigma/tau clamped in place, C09), d4cf81c (vfeat scaled in place, C09), 84060c1 (stale index in nr_uks_nldf, C09), 416ce1f (batched NLDF potential from last cache, C09), 0de4126 (two-sample model evaluation raised, C09), c18ba20 (racy k loop in atc_reciprocal_convolution, C10), d990871 (reference energies not stored with a correlation kernel first, C16), 1ac148e (KernelEvaluator kept strided views, C14), ca0230b (half-initialised NLDF generator after an interrupted rebuild, C09), 0ad5255 (NULL pointer freed by a destructor after an interrupted constructor, C09), 670cafa (screened multi-contraction shells zeroed neighbouring rows in the SDMX radial loop: schedule-dependent result and heap overflow, C10), efb8e5b (rks_grad.get_vxc_nldf wrong for several density matrices in one call, C09). 2e5951d (ElectronAnalyzer.from_calc left the calculator's generators built for the temporary grids, C09), f81262b (rks_grad.get_vxc_full_response used a stale semilocal plan after an unrestricted call / build(), C09). All are recorded as fixed in /verif/known_findings.json. No source hooks. See DESIGN.md.",
+ "notes": "fix: commits in /repo: 82c6c38 (OmegaMap code, C14), 047054a (sigma/tau clamped in place, C09), d4cf81c (vfeat scaled in place, C09), 84060c1 (stale index in nr_uks_nldf, C09), 416ce1f (batched NLDF potential from last cache, C09), 0de4126 (two-sample model evaluation raised, C09), c18ba20 (racy k loop in atc_reciprocal_convolution, C10), d990871 (reference energies not stored with a correlation kernel first, C16), 1ac148e (KernelEvaluator kept strided views, C14), ca0230b (half-initialised NLDF generator after an interrupted rebuild, C09), 0ad5255 (NULL pointer freed by a destructor after an interrupted constructor, C09), 670cafa (screened multi-contraction shells zeroed neighbouring rows in the SDMX radial loop: schedule-dependent result and heap overflow, C10), efb8e5b (rks_grad.get_vxc_nldf wrong for several density matrices in one call, C09). 2e5951d (ElectronAnalyzer.from_calc left the calculator's generators built for the temporary grids, C09), f81262b (rks_grad.get_vxc_full_response used a stale semilocal plan after an unrestricted call / build(), C09). 61b8413 (ElectronAnalyzer.from_calc without try/finally left the calculator on the temporary grid level after a failed evaluation, C09). All are recorded as fixed in /verif/known_findings.json. No source hooks. See DESIGN.md.",
 }
 json.dump(m, open("/verif/MANIFEST.json", "w"), indent=1)
